@@ -3,3 +3,4 @@ import XV.Props.C14
 import XV.Model.Chain
 import XV.Model.Ledger
 import XV.Props.C20
+import XV.Props.C15
